@@ -874,6 +874,12 @@ fn run_seq_inner(case: &SeqCase, cfg: &SeqCfg, run: &mut SeqRun) -> Result<(), V
                 log_pos = world.log_len();
             }
         }
+        if cfg.ownership && !case.read_only {
+            let g = (vsize as usize).div_ceil(cs) as u64;
+            crate::props::c08::ownership_check(&world, &dev, g).map_err(|v| v.at(i))?;
+            run.stats.ownership_checks += 1;
+            log_pos = world.log_len();
+        }
         if cfg.need_flush_check && !case.read_only && !dev.need_flush_meta() {
             run.stats.need_flush_false_samples += 1;
             compare_reopen(case, run, &world, &dev, &params, &params, i, salt, Rule::NeedFlush, true)?;
